@@ -22,6 +22,8 @@
  *   OBJ ...                            object-level stream, see obj_stream()              expected answer "OBJ ok"
  *   TB / TE / TO / TR / TJ             tree-level stream, see tree_stream()               expected answer "TREE ok" (on TJ)
  *   TB / TE / TM <mutation> <status>   mutated documents, see mut_stream()                expected answer "TMUT ok" (on TM)
+ *   SB / SE / SD SM ST SK SI / SJ      side-structure stream, see side_stream()           expected answer "SIDE ok" (on SJ)
+ *   SB / SE / SU <mutation> <status>   mutated side elements, see smut_stream()           expected answer "SMUT ok" (on SU)
  */
 #include "topology-xml-nolibxml.c"
 #include "dump.h"
@@ -487,7 +489,9 @@ static int duplicate_initiators(hwloc_topology_t t) {
       for (unsigned k = 0; k < tg->nr_initiators; k++) for (unsigned l = k + 1; l < tg->nr_initiators; l++) {
         struct hwloc_internal_location_s *a = &tg->initiators[k].initiator, *b = &tg->initiators[l].initiator;
         if (a->type != b->type) continue;
-        if (a->type == HWLOC_LOCATION_TYPE_CPUSET ? hwloc_bitmap_isequal(a->location.cpuset, b->location.cpuset)
+        /* the importer's matching rule (match_internal_location): a later cpuset initiator INCLUDED in an earlier one is merged into it
+         * (equal sets are the special case the precondition was first written for; B4: thorough seed 1 met 0x11 / 0x10 after a restrict) */
+        if (a->type == HWLOC_LOCATION_TYPE_CPUSET ? hwloc_bitmap_isincluded(b->location.cpuset, a->location.cpuset)
             : (a->location.object.gp_index == b->location.object.gp_index && a->location.object.type == b->location.object.type)) return 1;
       }
     }
@@ -884,6 +888,81 @@ static void mut_stream(const char *xml, size_t len) {
   }
 }
 
+/* ---- mutated SIDE elements (same documents): one line of the part after the root object is mutated so that the importers' REJECTING
+ * paths are driven: an attribute of a distances2(hetero) / indexes / u64values / memattr / memattr_value / cpukind / info start tag
+ * deleted ('p') or renamed ('q'), a child line (indexes / u64values / memattr_value / info) deleted ('r') or duplicated ('s'), the
+ * last number of an indexes / u64values text dropped with the length attribute kept ('t').  Each mutated document is loaded by the
+ * real hwloc in a forked grandchild and its side elements are sent to the driver:
+ *   SB ; SE ... ; SU <mutation> <status>         expected answer "SMUT ok"
+ * The driver runs importSide: a document the model REJECTS must not be loaded by hwloc; the other direction is not judged. */
+static int lv_is_side(const char *s) {
+  static const char *tg[] = { "<distances2", "<indexes ", "<u64values ", "<memattr ", "<memattr_value ", "<cpukind ", "<info " };
+  const char *bdy = lv_body(s);
+  for (unsigned i = 0; i < sizeof tg / sizeof tg[0]; i++) if (!strncmp(bdy, tg[i], strlen(tg[i]))) return 1;
+  return 0;
+}
+static int lv_is_sidechild(const char *s) {
+  const char *bdy = lv_body(s);
+  return !strncmp(bdy, "<indexes ", 9) || !strncmp(bdy, "<u64values ", 11) || !strncmp(bdy, "<memattr_value ", 15) || !strncmp(bdy, "<info ", 6);
+}
+#define SMUT_PER_CASE 4
+static void smut_stream(const char *xml, size_t len) {
+  if (nobjs > TREE_MAX_OBJS || len > 400000) return;
+  mut_state = 0x51ed270b4f7c3a95ull; for (size_t i = 0; i < len; i++) mut_state = (mut_state ^ (unsigned char) xml[i]) * 0x100000001b3ull;
+  if (!mut_state) mut_state = 1;
+  for (int m = 0; m < SMUT_PER_CASE; m++) {
+    struct lvec v = { NULL, 0, 0 };
+    { const char *p = xml, *e = xml + len; while (p < e && *p) { const char *q = memchr(p, '\n', (size_t) (e - p)); size_t n = q ? (size_t) (q - p) : strnlen(p, (size_t) (e - p));
+        char *s = malloc(n + 1); memcpy(s, p, n); s[n] = 0; lv_insert(&v, v.n, s); free(s); if (!q) break; p = q + 1; } }
+    /* the side part starts after the last </object> (or after the self-closed root) */
+    unsigned from = 0; for (unsigned i = 0; i < v.n; i++) if (lv_is_close(v.l[i]) || lv_is_open(v.l[i])) from = i + 1;
+    unsigned cand[512], nc = 0, candc[512], ncc = 0;
+    for (unsigned i = from; i < v.n; i++) { if (lv_is_side(v.l[i]) && nc < 512) cand[nc++] = i; if (lv_is_sidechild(v.l[i]) && ncc < 512) candc[ncc++] = i; }
+    char kind = "pqrst"[mut_rand(5)]; int done = 0;
+    if ((kind == 'p' || kind == 'q') && nc) {
+      unsigned t = cand[mut_rand(nc)];
+      /* the attributes of the start tag: ` name="..."` groups between the tag name and the first '>' (values hold no raw '"' or '>') */
+      char *l = v.l[t], *bdy = (char *) lv_body(l), *gt = strchr(bdy, '>');
+      unsigned na = 0, k0 = 0; char *at[32];
+      for (char *q = strchr(bdy, ' '); q && gt && q < gt && *q == ' ' && na < 32; ) {
+        char *eq = strchr(q, '='); if (!eq || eq >= gt || eq[1] != '"') break;
+        char *cl = strchr(eq + 2, '"'); if (!cl || cl >= gt) break;
+        at[na++] = q; q = cl + 1;
+      }
+      if (na > k0) {
+        char *a = at[k0 + mut_rand(na - k0)], *eq = strchr(a, '='), *cl = strchr(eq + 2, '"');
+        char *nl = malloc(strlen(l) + 4);
+        if (kind == 'p') sprintf(nl, "%.*s%s", (int) (a - l), l, cl + 1);
+        else sprintf(nl, "%.*s x%s", (int) (a - l), l, a + 1);
+        free(v.l[t]); v.l[t] = nl; done = 1;
+      }
+    } else if (kind == 'r' && ncc) { lv_remove(&v, candc[mut_rand(ncc)]); done = 1; }
+    else if (kind == 's' && ncc) { unsigned t = candc[mut_rand(ncc)]; char *c = strdup(v.l[t]); lv_insert(&v, t, c); free(c); done = 1; }
+    else if (kind == 't' && ncc) {
+      unsigned t = candc[mut_rand(ncc)];
+      char *l = v.l[t], *gt = strchr(l, '>'), *lt = gt ? strchr(gt, '<') : NULL;
+      if (gt && lt && lt - gt > 3 && lt[-1] == ' ') {
+        char *q = lt - 2; while (q > gt && *q != ' ') q--;
+        if (q > gt) { char *nl = malloc(strlen(l) + 1); sprintf(nl, "%.*s%s", (int) (q + 1 - l), l, lt); free(v.l[t]); v.l[t] = nl; done = 1; }
+      }
+    }
+    if (done) {
+      char *mb = NULL; size_t ml = 0; FILE *mf = open_memstream(&mb, &ml);
+      for (unsigned i = 0; i < v.n; i++) { fputs(v.l[i], mf); fputc('\n', mf); }
+      fclose(mf);
+      const char *p = root_object(mb, ml), *after = NULL;
+      if (p && scan_elems(NULL, p, mb + ml, 0, &after) >= 0 && after) {
+        int st = try_load(mb, ml);
+        emit(".", "SB");
+        if (scan_elems("SE", after, mb + ml, 1, NULL) >= 0) emit("SMUT ok", "SU %c %d", kind, st); else emit(".", "SB");
+      }
+      free(mb);
+    }
+    for (unsigned i = 0; i < v.n; i++) free(v.l[i]);
+    free(v.l);
+  }
+}
+
 static void roundtrip(char mode, int fmt) {
   unsigned long xflags = fmt == 2 ? HWLOC_TOPOLOGY_EXPORT_XML_FLAG_V2 : 0;
   hwloc_topology_t t2 = NULL;
@@ -916,6 +995,7 @@ static void roundtrip(char mode, int fmt) {
   if (fmt == 3 && !cur_export_libxml && !getenv("VERIF_XMLRT_NO_TREE")) tree_stream(topo, t2, x1, len1);
   if (fmt == 3 && !cur_export_libxml && !getenv("VERIF_XMLRT_NO_TREE") && !getenv("VERIF_XMLRT_NO_SIDE")) side_stream(topo, t2, x1, len1);
   if (fmt == 3 && !cur_export_libxml && !getenv("VERIF_XMLRT_NO_TREE") && !getenv("VERIF_XMLRT_NO_MUT")) { recollect(topo); mut_stream(x1, len1); }
+  if (fmt == 3 && !cur_export_libxml && !getenv("VERIF_XMLRT_NO_TREE") && !getenv("VERIF_XMLRT_NO_SIDE") && !getenv("VERIF_XMLRT_NO_MUT")) { recollect(topo); smut_stream(x1, len1); }
   flush2();
   /* hwloc_topology_check() is not called on the reloaded topology: it is equivalent to the original (just judged), and whether
    * the original passes it is C01/C02's business (VERIF_XMLRT_CHECK=1 runs it on both, original first) */
@@ -1021,7 +1101,7 @@ static void gen_op(char *line, size_t cap) {
     static const unsigned long fls[] = {0, 0, 0, 1, 3};
     hexs(h1, some_str());
     int noname = rng_chance(25);
-    unsigned n = 2 + rng_below(7);
+    unsigned n = rng_chance(25) ? 9 + rng_below(20) : 2 + rng_below(7);     /* beyond 10: more than one <indexes> child */
     if (rng_chance(30)) snprintf(line, cap, "OP distadd H %u %u %lu %lu %llu %s", rng_below(nobjs), n, kinds[rng_below(13)] | (rng_chance(70) ? 16 : 0), 0UL, (unsigned long long) rng_below(100000), noname ? "-" : h1);
     else {
       int depth = rng_chance(40) ? HWLOC_TYPE_DEPTH_NUMANODE : (int) rng_below(hwloc_topology_get_depth(topo));
